@@ -127,6 +127,14 @@ fn emit_choice(
         // container with a "\n" (representing the line break after the user selects).
         branch_nodes.push(Node::Newline);
         body_already_emitted = true;
+    } else if choice.is_invisible_default
+        && !choice.has_start_content
+        && !choice.has_choice_only_content
+        && !choice.body_divert_is_inline
+    {
+        // fallback choice (`* ->`): its empty text line still ends in a line break
+        // before the body starts (inklecate opens the c-N container with "\n").
+        branch_nodes.push(Node::Newline);
     }
     if !body_already_emitted {
         branch_nodes.extend(choice.body.clone());
